@@ -346,11 +346,16 @@ PROPS = {
         'claimed': [
             'parse-time map: push_K appends exactly the id and returns its position, touching no other index space; get_K(i) is Ok(ids[i]) iff i in range (macro-generated methods verified through the macro itself, rule R9)',
             'emit-time map: push_K assigns the next free index (= number of ids pushed so far) and touches no other space; set_data_index',
-            'push sites: every parse loop body pushes the id of the record it just created, once, into its own space (imports: the space of the import kind); every emit loop body pushes the entity whose entry it appends, in the same iteration',
+            'push sites: every parse loop body (memories, tables, globals, imports, exports, data, elements, reserve_data) pushes the id of the record it just created, once, into its own space (imports: the space of the import kind); every emit loop body pushes the entity whose entry it appends, in the same iteration; emit_data_count assigns every live data segment its index',
         ],
         'unclaimed': [
             'get_K_index bodies (Option::cloned().unwrap_or_else(|| panic!)): assumed contract',
-            'push_local / locals index space; functions, types, elements and data push sites; hand-off of the maps to custom sections (unit I)',
+            'push_local / locals index space; functions and types push sites; hand-off of the maps to custom sections (unit I proves the call order only)',
+        ],
+        'standins': [
+            {'fn': 'both maps as extension code sees them', 'argv': ['maps'],
+             'bound': '3 modules (imports in front of local entities in every index space, functions that walrus reorders, locals of four value types, data segments with and without a data-count section, passive / active segments, duplicate types) x {emit, gc+emit}: inside on_parse every index of every index space of the INPUT (incl. every local of every function) resolves to an entity with that index\'s identifying attribute and out-of-range local indices do not resolve; inside CustomSection::data every live entity\'s reported index carries that entity\'s attribute in the OUTPUT binary; on_parse runs once',
+             'why': 'the maps are filled across many functions and handed over through dyn CustomSection / boxed callbacks'},
         ],
     },
     'C16': {
